@@ -630,7 +630,13 @@ fn enabled_c09(w: &RouterWorld, cfg: &Cfg, v: &mut Vec<(Act, u8)>) {
     if live(w, s) {
         for f in 0..cfg.filters.len() as u8 {
             if !active_sub(w, s, &cfg.filters[f as usize]) {
-                let q = if cfg.variant == 1 { 2 } else { 1 + (f % 2) };
+                // variant 2: a QoS 1 and a QoS 0 subscription, so that a stalled link collects
+                // more than the window (buffer-full back-pressure with acks outstanding)
+                let q = match cfg.variant {
+                    1 => 2,
+                    2 => 1 - (f % 2),
+                    _ => 1 + (f % 2),
+                };
                 v.push((Act::Sub { c: s, f, qos: q }, 0));
             }
         }
